@@ -337,3 +337,63 @@ def property_oracles(ctx, T, codes, athlib, reqs, groups, vals, errs):
                                          H.show(r[j]), note='gender-spelling',
                                          replay_py='result = athlib.%s(%s)' % (fn, ', '.join(repr(x) for x in ([sp, age, row.event] if j == 0 else [sp, row.event] if j == 1 else [sp, age, row.event, float(row.best)])) + ', year=%s' % y))
     ctx.count(ng, 'gender_spelling_calls')
+    # ---- the documented verbose switch only prints: the grade must be the quiet call's grade
+    import io, contextlib
+    nvb = 0
+    for y in W.YEARS:
+        t = T[y]
+        for g in 'mf':
+            rows = t.rows[g] if not ctx.quick() else ctx.rng.sample(t.rows[g], 14)
+            for row in rows:
+                a0 = t.first_nonnull_age(g, row.event)
+                for age in (a0 + 0.5, 40, 52.5, 67.5, 83):
+                    for mark in (float(row.best) * 1.0703125, float(row.best) * 0.93359375):
+                        quiet = W.canon_py(lambda: athlib.wma_age_grade(g, age, row.event, mark, year=int(y)))
+                        with contextlib.redirect_stdout(io.StringIO()):
+                            loud = W.canon_py(lambda: athlib.wma_age_grade(g, age, row.event, mark, verbose=True, year=int(y)))
+                        nvb += 2
+                        if loud != quiet:
+                            ctx.fail('athlib.wma_age_grade', [y, g, age, row.event, mark, 'verbose=True'], 'the grade without verbose: %s' % H.show(quiet), H.show(loud),
+                                     note='the verbose option changes the grade',
+                                     replay_py='result = (athlib.wma_age_grade(%r, %r, %r, %r, year=%s), athlib.wma_age_grade(%r, %r, %r, %r, verbose=True, year=%s))' % (g, age, row.event, mark, y, g, age, row.event, mark, y))
+    ctx.count(nvb, 'verbose_calls')
+    # ---- the order in which the three tables are first used must not matter: fresh interpreters that touch them in
+    # different orders, asked for factors at and past the last columns, must agree with this process
+    import subprocess, sys as _sys, json as _json
+    qs = []
+    for y in W.YEARS:
+        t = T[y]
+        for g in 'mf':
+            for row in [r for r in t.rows[g] if r.event in ('100', 'LJ', 'MAR', '5K', 'SP')][:5]:
+                for age in (99, 100, 100.5, 101, 104.5, 105, 109.5, 110, 112, 130):
+                    qs.append(['factor', g, age, row.event, int(y)])
+    for g in 'mf':
+        for ev in ('100', 'LJ', 'SP', '1500'):
+            for age in (99, 100, 104, 105, 106, 109, 110, 114, 130):
+                qs.append(['athlon', g, age, ev, 0])
+    code_ = ('import sys, json; sys.path.insert(0, %r); import athlib\n'
+             'def c(f):\n'
+             '    try: r = f()\n'
+             '    except Exception as e: return ["e", type(e).__name__]\n'
+             '    return ["v", r] if isinstance(r, (int, float)) and not isinstance(r, bool) else ["x", repr(r)[:60]]\n'
+             'order, qs = json.loads(sys.stdin.read())\n'
+             'for o in order:\n'
+             '    c((lambda: athlib.wma_age_factor("m", 50, "100", year=o)) if o else (lambda: athlib.wma_athlon_age_factor("m", 50, "100")))\n'
+             'print(json.dumps([c((lambda q=q: athlib.wma_age_factor(q[1], q[2], q[3], year=q[4])) if q[0] == "factor" else (lambda q=q: athlib.wma_athlon_age_factor(q[1], q[2], q[3]))) for q in qs]))\n') % (vlib.REPO,)
+    here = [list(W.canon_py((lambda q=q: athlib.wma_age_factor(q[1], q[2], q[3], year=q[4])) if q[0] == 'factor' else (lambda q=q: athlib.wma_athlon_age_factor(q[1], q[2], q[3])))) for q in qs]
+    orders = [[2015, 2023, 0], [2023, 0, 2015], [0, 2015, 2023], [2023, 2015, 0]]
+    procs = [(o, subprocess.Popen([_sys.executable, '-c', code_], stdin=subprocess.PIPE, stdout=subprocess.PIPE, stderr=subprocess.PIPE, text=True)) for o in orders]
+    nlo = 0
+    for o, pr in procs:
+        out_, err_ = pr.communicate(_json.dumps([o, qs]), timeout=600)
+        try: res = _json.loads(out_.strip().split('\n')[-1])
+        except Exception:
+            ctx.oblig('fresh-interpreter table-order sweep', 'correspondence', False, (err_ or out_)[-300:]); continue
+        for q, r, h in zip(qs, res, here):
+            nlo += 1
+            same = (r[0] == h[0]) and (r[1] == h[1] if r[0] != 'v' else abs(r[1] - h[1]) <= 1e-12 * abs(h[1]))
+            if not same:
+                ctx.fail('athlib.wma_age_factor' if q[0] == 'factor' else 'athlib.wma_athlon_age_factor', q[1:4] + ([q[4]] if q[0] == 'factor' else []) + ['tables first used in the order %r (0 = combined events)' % (o,)],
+                         'the answer of this process: %r' % (h,), repr(r), note='the answer depends on the order in which the tables were first used',
+                         replay_py='# fresh interpreter:\nfor o in %r:\n    (athlib.wma_age_factor("m", 50, "100", year=o) if o else athlib.wma_athlon_age_factor("m", 50, "100"))\nresult = %s' % (o, ('athlib.wma_age_factor(%r, %r, %r, year=%r)' % tuple(q[1:5])) if q[0] == 'factor' else ('athlib.wma_athlon_age_factor(%r, %r, %r)' % tuple(q[1:4]))))
+    ctx.count(nlo, 'table_order_answers')
